@@ -158,8 +158,9 @@ type World struct {
 	mu      sync.Mutex
 	dead    map[string]bool
 	cutAPI  map[string]bool
-	start   time.Time
-	service string
+	start     time.Time
+	service   string
+	leadSince map[string]time.Duration
 }
 
 func (w *World) isDead(node string) bool {
@@ -316,3 +317,47 @@ func (w *World) Advance(d time.Duration) {
 }
 
 func (w *World) Stop() { w.Sc.Uninstall() }
+
+// TrackLeadership samples every replica's own view of every shard's
+// leadership each 100 ms of fake time and remembers since when it has held it
+// without interruption.
+func (w *World) TrackLeadership() {
+	w.leadSince = map[string]time.Duration{}
+	go func() {
+		tk := time.NewTicker(100 * time.Millisecond)
+		defer tk.Stop()
+		for range tk.C {
+			w.mu.Lock()
+			for _, rp := range w.Replicas {
+				for s := 0; s < w.Shards; s++ {
+					key := fmt.Sprintf("%s|%d", rp.Name, s)
+					lead := !w.dead[rp.Name] && rp.RL != nil
+					if lead {
+						l, ok := rp.RL.GetLeaders()[s]
+						lead = ok && l.Leader == rp.Identity
+					}
+					if lead {
+						if _, ok := w.leadSince[key]; !ok {
+							w.leadSince[key] = time.Since(w.start)
+						}
+					} else {
+						delete(w.leadSince, key)
+					}
+				}
+			}
+			w.mu.Unlock()
+		}
+	}()
+}
+
+// LeadingFor returns how long the replica has led the shard without
+// interruption in its own view (0 = not leading).
+func (w *World) LeadingFor(rp *Replica, shard int) time.Duration {
+	w.mu.Lock()
+	defer w.mu.Unlock()
+	since, ok := w.leadSince[fmt.Sprintf("%s|%d", rp.Name, shard)]
+	if !ok {
+		return 0
+	}
+	return time.Since(w.start) - since
+}
